@@ -189,6 +189,20 @@ theorem bad_sth_response_is_error (P : Prims) (verifier : Option Key) (r : Rsp S
     · simp [toSignedTreeHead, h]
     · simp [ht, hk, hv]
 
+/-- in particular: octets after the DigitallySigned of `tree_head_signature` ("trailing TLS bytes"), or a DigitallySigned
+cut short, make get-sth fail with the status — whatever the rest of the response says and whoever signed it. -/
+theorem sth_trailing_or_truncated_signature_is_error (P : Prims) (verifier : Option Key) (r : Rsp SthBody) (b : SthBody)
+    (hb : r.body = some b) (good : Bytes) (ds : DigitallySigned) (hg : dsExact good = some ds)
+    (h : (∃ t, t ≠ [] ∧ b.sig = good ++ t) ∨ (∃ k, k < good.length ∧ b.sig = good.take k)) :
+    getSTH P verifier r = .rspErr r.status := by
+  apply bad_sth_response_is_error
+  refine Or.inr (Or.inr ⟨b, hb, Or.inr (Or.inl ?_)⟩)
+  rcases h with ⟨t, ht, e⟩ | ⟨k, hk, e⟩
+  · rw [e]; exact dsExact_trailing good t ds hg ht
+  · rw [e]; exact dsExact_truncated good ds hg k hk
+
+example : dsExact [4, 3, 0, 2, 7, 7] = some ⟨4, 3, [7, 7]⟩ ∧ dsExact ([4, 3, 0, 2, 7, 7] ++ [0]) = none ∧ dsExact ([4, 3, 0, 2, 7, 7].take 5) = none := by decide
+
 /-- every outcome of get-sth is an STH, an error with the status, or — only for a nil key pointer — a panic -/
 theorem getSTH_outcomes (P : Prims) (verifier : Option Key) (r : Rsp SthBody)
     (hn : ∀ key, verifier = some key → key.isNil = false) :
@@ -376,12 +390,16 @@ theorem decodeAll_consistent (es : List EntryIn) (rs : List RawEntry) (h : decod
           exact ⟨h1, h2, by simpa using hf⟩
         · simpa using hall i (by simpa using hi) (by simpa using hj)
 
-/- FULL (error form of get-entries): every error after a response was received carries its status and body:
-     getEntries s e r = x, 0 ≤ e, s ≤ e  →  (∃ rs, x = .ok rs) ∨ x = .rspErr r.status
-   Not provable for the tree as found: `Gen.getEntriesWrapsDecodeError` is `false` there — an undecodable entry of a
-   200 response comes back as a bare error (F12, known finding of C12, fixes/C12-2.diff).  With the wrapping present: -/
-theorem getEntries_error_partial (s e : Int) (r : Rsp (List EntryIn)) (hflag : Gen.getEntriesWrapsDecodeError = true)
-    (hr : 0 ≤ e ∧ s ≤ e) : (∃ rs, getEntries s e r = .ok rs) ∨ getEntries s e r = .rspErr r.status := by
+/-- GetEntries wraps the failure to decode an entry in RspError — **regenerated** from client/getentries.go on every run.
+On a tree without the wrapping (`fix: client: GetEntries dropped the HTTP status and body …` reverted) this is `false`,
+this lemma and `getEntries_error` stop compiling, and the harness shows the bare error. -/
+theorem getEntries_wraps_decode_error : Gen.getEntriesWrapsDecodeError = true := rfl
+
+/-- **bad_response_is_error (get-entries).** Once a request was made (a valid range), every outcome of `GetEntries` is the
+entries or an error carrying the status of the response: non-200, undecodable body, an entry that does not decode or
+whose certificate fails to parse — never a bare error, never a partial list. -/
+theorem getEntries_error (s e : Int) (r : Rsp (List EntryIn)) (hr : 0 ≤ e ∧ s ≤ e) :
+    (∃ rs, getEntries s e r = .ok rs) ∨ getEntries s e r = .rspErr r.status := by
   unfold getEntries
   have : ¬ (e < 0 ∨ e < s) := by omega
   simp only [this, if_false]
@@ -394,25 +412,20 @@ theorem getEntries_error_partial (s e : Int) (r : Rsp (List EntryIn)) (hflag : G
   | some es =>
     simp only
     cases hd : decodeAll es with
-    | none => simp [hflag]
+    | none => simp [getEntries_wraps_decode_error]
     | some rs => simp
 
-/-- without the flag: the only bare error of get-entries on a valid range is the undecodable-entry case -/
-theorem getEntries_bare_error_only_for_bad_entry (s e : Int) (r : Rsp (List EntryIn)) (hr : 0 ≤ e ∧ s ≤ e)
-    (h : getEntries s e r = .err) : r.status = 200 ∧ ∃ es, r.body = some es ∧ decodeAll es = none := by
-  unfold getEntries at h
-  have : ¬ (e < 0 ∨ e < s) := by omega
-  simp only [this, if_false] at h
-  unfold plainGet at h
-  by_cases hs : r.status ≠ 200
-  · simp [hs] at h
-  simp only [hs, if_false] at h
-  cases hb : r.body with
-  | none => simp [hb] at h
-  | some es =>
-    simp only [hb] at h
-    cases hd : decodeAll es with
-    | none => exact ⟨by simpa using hs, es, rfl, hd⟩
-    | some rs => simp [hd] at h
+example : getEntries 0 1 ⟨200, some [⟨[1, 2, 3], [], false⟩]⟩ = .rspErr 200 ∧ getEntries 0 1 ⟨200, some []⟩ = .ok [] ∧
+    getEntries 3 1 ⟨200, some []⟩ = .err ∧ getEntries 0 1 ⟨503, none⟩ = .rspErr 503 := by decide
+
+/-- the only bare error of get-entries is the refusal of an invalid range, before any request is made -/
+theorem getEntries_bare_error_only_for_bad_range (s e : Int) (r : Rsp (List EntryIn)) (h : getEntries s e r = .err) :
+    e < 0 ∨ e < s := by
+  by_cases hr : e < 0 ∨ e < s
+  · exact hr
+  · exfalso
+    rcases getEntries_error s e r (by omega) with ⟨rs, h'⟩ | h'
+    · rw [h'] at h; cases h
+    · rw [h'] at h; cases h
 
 end C12
